@@ -110,6 +110,21 @@ func genHostileSvcOp(s *Sim) (Decision, bool) {
 
 // genHostileOutcome: malformed answers.
 func genHostileOutcome(s *Sim, r *Req, draining bool) string {
+	if res := s.W.Res[r.Name]; r.Type == "get" && !s.calm && res != nil && !res.IsQuery && (res.Kind == 'm' || res.Kind == 'c') {
+		if r.Query != "" && s.chance(0.5) {
+			// the re-fetch (or second load) of what an earlier stray query made the
+			// gateway keep as a query resource: often gone
+			return "err:system.notFound"
+		}
+		rate := 0.03
+		if s.Cfg.P.fault("reset") {
+			rate = 0.12
+		}
+		if r.Query == "" && s.chance(rate) {
+			s.stat("fault.malformed_answer", 1)
+			return "okq"
+		}
+	}
 	rate := 0.1
 	if r.Rf == 2 {
 		rate = 0.3
